@@ -116,6 +116,36 @@ pub fn run(ctx: &mut Ctx) {
                 if cs != ss { if let Some(Ok(())) = server(m, &cs.to_le_bytes(), &u, key, p, ss) { ctx.fail("seed_order", det("proof accepted with the two seeds swapped")); } }
                 let mut k2 = key; k2[rng.below(40) as usize] ^= 1 << rng.below(8);
                 if let Some(Ok(())) = server(m, &ss.to_le_bytes(), &u, k2, p, cs) { ctx.fail("key_binding", det("proof accepted under a different session key")); }
+                // histories on one thread: consecutive derivations that differ from the previous one in a single
+                // input (one key bit, one name character, one seed bit) must each give the value determined by
+                // THEIR inputs - a result remembered from the previous call would show here
+                if k % 5 == 0 {
+                    let (mut hk, mut hu, mut hcs, mut hss) = (key, u.clone(), cs, ss);
+                    for step in 0..8 {
+                        match step % 4 {
+                            0 => { hk[rng.below(40) as usize] ^= 1 << rng.below(8); }
+                            1 => { let mut b = hu.clone().into_bytes(); let i = rng.below(b.len() as u64) as usize; b[i] = if b[i] == b'Q' { b'R' } else { b'Q' }; hu = String::from_utf8(b).unwrap(); }
+                            2 => { hss ^= 1 << rng.below(32); }
+                            _ => { hcs ^= 1 << rng.below(32); }
+                        }
+                        let hwant = spec(&hu, &hk, hcs, hss);
+                        ctx.oracle_runs += 1;
+                        let hdet = |what: &str| format!("{{\"what\":\"{}\",\"module\":{},\"history_step\":{},\"first_call\":{{\"user\":{},\"key\":\"{}\",\"client_seed\":{},\"server_seed\":{}}},\"this_call\":{{\"user\":{},\"key\":\"{}\",\"client_seed\":{},\"server_seed\":{}}}}}",
+                                                         what, m, step, jstr(&u), hex(&key), cs, ss, jstr(&hu), hex(&hk), hcs, hss);
+                        match client(m, &hcs.to_le_bytes(), &hu, hk, hss) {
+                            Some((_, hp)) if hp == hwant => {
+                                match server(m, &hss.to_le_bytes(), &hu, hk, hp, hcs) { Some(Ok(())) => {}, _ => ctx.fail("history_agree", hdet("server refuses the honest client's proof after a near-identical earlier call on the same thread")) }
+                            }
+                            Some(_) => ctx.fail("history_proof_value", hdet("client proof after a near-identical earlier call on the same thread is not SHA1(user|0000|client seed|server seed|key) of ITS inputs")),
+                            None => ctx.fail("panic", hdet("client panicked")),
+                        }
+                        // the previous call's proof must be refused under the changed inputs
+                        match server(m, &hss.to_le_bytes(), &hu, hk, p, hcs) {
+                            Some(Err((c, s))) if c == p && s == hwant => {}
+                            _ => ctx.fail("history_stale_proof", hdet("a proof computed for the first call's inputs is not refused (with the expected payload) after the inputs changed")),
+                        }
+                    }
+                }
             }
         }
     }
